@@ -5,3 +5,9 @@ import "testing"
 func TestC20(t *testing.T) { runProp(t, "C20", drawC20) }
 
 func TestC19(t *testing.T) { runProp(t, "C19", drawC19) }
+
+func TestC03(t *testing.T) { runProp(t, "C03", drawC03) }
+
+func TestC04(t *testing.T) { runProp(t, "C04", drawC04) }
+
+func TestC12(t *testing.T) { runProp(t, "C12", drawC12) }
